@@ -41,6 +41,7 @@ type Op struct {
 	Addr   string                       `json:"addr"`
 	Key    string                       `json:"key"`
 	Script bool                         `json:"script"` // rendered as Numscript (else as a postings request)
+	Src    string                       `json:"src"`    // import: the ledger whose export is imported
 	API    string                       `json:"api"`    // v2 (default) | v1
 }
 
@@ -121,7 +122,7 @@ type LogObs struct {
 	Key    string            `json:"key"`
 	Meta   map[string]string `json:"meta"`
 	Hashed bool              `json:"hashed"`
-	Hash   string            `json:"-"`
+	Hash   string            `json:"h"`
 	Raw    json.RawMessage   `json:"-"`
 }
 
@@ -133,6 +134,9 @@ type LedgerObs struct {
 	Vols  []VolB    `json:"vols"`
 	Agg   []AggB    `json:"agg"`
 	Flags Flags     `json:"flags"`
+	// Chain: for each log (id order) the id of the log whose hash it chains from, recovered by recomputing
+	// the documented hash with the repository's Log.ComputeHash (0 = none, -1 = not reproducible, -2 = unhashed)
+	Chain []int `json:"chain"`
 }
 
 // Flags tells the specification which derived observables the ledger's feature set provides.
